@@ -23,6 +23,7 @@ pub fn enumerate(prop: &str, tier: &str, f: &mut dyn FnMut(Case)) {
         "C01" => {
             gen::lists(lv, f);
             gen::builtins(lv, f);
+            gen::nfacts(lv, f);
             gen::core(lv, f);
         }
         "C12" => crate::gen3::arith(lv, f),
@@ -38,6 +39,10 @@ pub fn enumerate(prop: &str, tier: &str, f: &mut dyn FnMut(Case)) {
             crate::gen3::append(lv, f);
             crate::gen3::filter(lv, f);
         }
+        "C08" => {
+            gen::lists(lv, f);
+            gen::nfacts(lv, f);
+        }
         "C02" => gen::cut(lv, f),
         "C03" => gen::not(lv, f),
         "C04" => gen::output(lv, f),
@@ -48,6 +53,7 @@ pub fn enumerate(prop: &str, tier: &str, f: &mut dyn FnMut(Case)) {
             gen::not(l, f);
             gen::output(l, f);
             gen::builtins(l, f);
+            gen::nfacts(if prop == "C10" { l + 1 } else { l }, f);
             gen::core(l, f);
         }
         _ => {}
